@@ -1,7 +1,7 @@
-\* C19 leg A quick: <= 5 endpoints (1 section each) and <= 3 endpoints with 2 sections each,
+\* C19 leg A quick: <= 4 endpoints (1 section each) and <= 3 endpoints with 2 sections each,
 \* <= 4 zones, all layouts / ring orders / rf; cases: zone vectors up to 8 endpoints
 SPECIFICATION Spec
-CONSTANTS MaxN = 5
+CONSTANTS MaxN = 4
           MaxZones = 4
           SecChoices = {1, 2}
           MaxSecs = 6
